@@ -119,18 +119,18 @@ fn sym(c: Option<u16>) -> String {
     }
 }
 
-/// Does `v[j..]` start with a character reference that decodes to `want`?
-fn entity_for(v: &[u16], j: usize, want: u16) -> bool {
-    if v.get(j) != Some(&0x26) {
+/// Does the source text at `raw[j..]` start with a character reference that decodes to `want`?
+fn entity_at(raw: &[char], j: usize, want: u16) -> bool {
+    if raw.get(j) != Some(&'&') {
         return false;
     }
-    let tail: Vec<char> = v[j..(j + 12).min(v.len())].iter().map(|u| char::from_u32(*u as u32).unwrap_or('\u{fffd}')).collect();
+    let tail = &raw[j..(j + 12).min(raw.len())];
     let Some(semi) = tail.iter().position(|c| *c == ';') else { return false };
-    let one: Vec<char> = tail[..=semi].to_vec();
+    let one = &tail[..=semi];
     if one.len() < 3 {
         return false;
     }
-    match html::decode_refs(&one) {
+    match html::decode_refs(one) {
         Ok(d) => {
             let dv: Vec<u16> = d.encode_utf16().collect();
             dv.len() == 1 && dv[0] == want && d != one.iter().collect::<String>()
@@ -139,40 +139,63 @@ fn entity_for(v: &[u16], j: usize, want: u16) -> bool {
     }
 }
 
-/// Defect class of a JS string slot, computed from where the evaluated value departs from the
-/// configured one. `got` = value (complete literal) or the partial value with the lexer error.
-fn classify(cfg: &[u16], got: &[u16], err: Option<&StrErrKind>) -> Option<(String, String)> {
+/// Defect class of a JS string slot, computed from the first *item* of the literal (one source
+/// character or one escape sequence) whose value is not the next piece of the configured string.
+/// `raw` is the script text, `items` = (source index, value length before) per item, `got` the value
+/// (complete, or partial with `err`).
+fn classify(cfg: &[u16], got: &[u16], items: &[(usize, usize)], raw: &[char], err: Option<&StrErrKind>) -> Option<(String, String)> {
     if err.is_none() && got == cfg {
         return None;
     }
-    let i = cfg.iter().zip(got.iter()).take_while(|(a, b)| a == b).count();
-    let c = cfg.get(i).copied();
-    // a character reference standing where the configured character should be (it may share its
-    // first character with the configured text when that character is `&`)
-    let lo = i.saturating_sub(8);
-    for j in (lo..=i).rev() {
-        if j < cfg.len() && j < got.len() && got[j] == 0x26 && (j == i || cfg[j] == 0x26) {
-            if entity_for(got, j, cfg[j]) {
-                return Some(("html-entity-inside-js-string".into(), sym(Some(cfg[j]))));
-            }
+    // walk the items against the configured string
+    let mut pos = 0usize; // configured units matched so far
+    let mut culprit: Option<usize> = None; // index of the first item that does not fit
+    let mut cfg_pos: Vec<usize> = Vec::with_capacity(items.len());
+    for (k, (_, vstart)) in items.iter().enumerate() {
+        let vend = items.get(k + 1).map(|x| x.1).unwrap_or(got.len());
+        let units = &got[*vstart..vend];
+        cfg_pos.push(pos);
+        if units.is_empty() || !cfg[pos.min(cfg.len())..].starts_with(units) {
+            culprit = Some(k);
             break;
         }
+        pos += units.len();
     }
-    if c == Some(0x5c) {
-        return Some(("backslash-unescaped".into(), "backslash".into()));
+    // an HTML character reference standing for a configured character: its `&` is either the
+    // culprit itself or (when the configured character is `&`) an item shortly before it
+    let upto = culprit.unwrap_or(items.len().saturating_sub(1));
+    if !items.is_empty() {
+        for j in (upto.saturating_sub(8)..=upto.min(cfg_pos.len().saturating_sub(1))).rev() {
+            let cp = cfg_pos[j];
+            if cp < cfg.len() && raw.get(items[j].0) == Some(&'&') && entity_at(raw, items[j].0, cfg[cp]) {
+                return Some(("html-entity-inside-js-string".into(), sym(Some(cfg[cp]))));
+            }
+        }
     }
-    if i == got.len() {
-        // the evaluated text is a proper prefix of the configured one
-        return Some(match err {
-            Some(StrErrKind::LineTerminator) if matches!(c, Some(0x0a) | Some(0x0d)) => ("line-terminator-in-js-string".into(), sym(c)),
-            Some(StrErrKind::LineTerminator) | Some(StrErrKind::Eof) | Some(StrErrKind::BadEscape) | Some(StrErrKind::NotAString) => ("js-string-syntax-error".into(), sym(c)),
-            None => ("string-context-ended-by-value".into(), sym(c)),
-        });
+    match culprit {
+        Some(k) => {
+            let c = cfg.get(cfg_pos[k]).copied();
+            // a configured backslash that does not arrive as a backslash (consumed as an escape introducer)
+            if c == Some(0x5c) {
+                return Some(("backslash-unescaped".into(), "backslash".into()));
+            }
+            if c.is_none() {
+                return Some(("string-runs-past-configured-value".into(), "end".into()));
+            }
+            Some(("wrong-character-in-js-string".into(), sym(c)))
+        }
+        None => {
+            // every evaluated item fits: the literal stopped (closing quote or lexer error) before
+            // the configured string was complete
+            let c = cfg.get(pos).copied();
+            Some(match err {
+                Some(StrErrKind::LineTerminator) if matches!(c, Some(0x0a) | Some(0x0d)) => ("line-terminator-in-js-string".into(), sym(c)),
+                _ if c == Some(0x5c) => ("backslash-unescaped".into(), "backslash".into()),
+                Some(_) => ("js-string-syntax-error".into(), sym(c)),
+                None => ("string-context-ended-by-value".into(), sym(c)),
+            })
+        }
     }
-    if i == cfg.len() {
-        return Some(("string-runs-past-configured-value".into(), "end".into()));
-    }
-    Some(("wrong-character-in-js-string".into(), sym(c)))
 }
 
 struct Found {
@@ -228,11 +251,12 @@ fn judge(cfg: &Cfg, page: &str, benign_skeleton: &[String], hostile: &str) -> Re
     let mut structure_reported = false;
     if own_end != Some(me) {
         structure_reported = true;
+        let class = if own_end.map(|o| me < o).unwrap_or(false) { "script-context-ended-by-value" } else { "script-end-tag-swallowed-by-value" };
         out.push(Found {
-            class: "script-context-ended-by-value".into(),
+            class: class.into(),
             slot: hostile.into(),
             symbol: String::new(),
-            detail: format!("the module script ends at char {me} ({:?}…) but the template's own </script> is at {own_end:?}", chars[me..(me + 20).min(chars.len())].iter().collect::<String>()),
+            detail: format!("the module script's content ends at char {me} ({:?}…) but the template's own </script> is at {own_end:?}", chars[me.min(chars.len())..(me + 20).min(chars.len())].iter().collect::<String>()),
         });
     }
     let sk = html::skeleton(&toks);
@@ -280,17 +304,17 @@ fn judge(cfg: &Cfg, page: &str, benign_skeleton: &[String], hostile: &str) -> Re
                 let (slot, cfgs) = site(prop, *entry, role).unwrap_or(("?", None));
                 fatal_slot = Some(slot.to_string());
                 let (class, symbol) = match cfgs {
-                    Some(c) => classify(&js::utf16(c), &err.partial, Some(&err.kind)).unwrap_or(("js-string-syntax-error".into(), "end".into())),
+                    Some(c) => classify(&js::utf16(c), &err.partial, &err.items, script, Some(&err.kind)).unwrap_or(("js-string-syntax-error".into(), "end".into())),
                     None => ("js-string-syntax-error".into(), String::new()),
                 };
                 out.push(Found {
                     class,
                     slot: slot.into(),
                     symbol,
-                    detail: format!("string literal for {slot} does not lex ({:?} after evaluating {}); configured {:?}", err.kind, show16(&err.partial), cfgs),
+                    detail: format!("string literal for {slot} does not lex ({:?} at script char {} after evaluating {}); configured {:?}", err.kind, err.at, show16(&err.partial), cfgs),
                 });
             }
-            Issue::Syntax { prop, entry, role, expected, found, .. } => {
+            Issue::Syntax { prop, entry, role, expected, found, at } => {
                 let slot: String = site(prop, *entry, role).map(|x| x.0.to_string()).unwrap_or_else(|| hostile.to_string());
                 fatal_slot = Some(slot.clone());
                 // if the literal at this site evaluated to something else than configured, the value
@@ -299,17 +323,17 @@ fn judge(cfg: &Cfg, page: &str, benign_skeleton: &[String], hostile: &str) -> Re
                     class: "js-syntax-error-after-string".into(),
                     slot,
                     symbol: String::new(),
-                    detail: format!("after the {role} of `{prop}` the script continues with {found:?}, the template's grammar needs {expected:?}"),
+                    detail: format!("after the {role} of `{prop}` (script char {at}) the script continues with {found:?}, the template's grammar needs {expected:?}"),
                 });
             }
         }
     }
     if let Some(f) = &fetcher {
         let get = |n: &str| f.props.iter().find(|(k, _)| k == n).map(|(_, v)| v);
-        let cmp = |out: &mut Vec<Found>, slot: &'static str, cfgs: Option<&String>, got: Option<&Vec<u16>>| match (cfgs, got) {
+        let cmp = |out: &mut Vec<Found>, slot: &'static str, cfgs: Option<&String>, got: Option<&js::Lit>| match (cfgs, got) {
             (Some(c), Some(g)) => {
-                if let Some((class, symbol)) = classify(&js::utf16(c), g, None) {
-                    out.push(Found { class, slot: slot.into(), symbol, detail: format!("{slot}: the script's string evaluates to {}, configured {c:?}", show16(g)) });
+                if let Some((class, symbol)) = classify(&js::utf16(c), &g.value, &g.items, script, None) {
+                    out.push(Found { class, slot: slot.into(), symbol, detail: format!("{slot}: the script's string evaluates to {}, configured {c:?}", show16(&g.value)) });
                 }
             }
             (Some(c), None) => {
@@ -317,7 +341,7 @@ fn judge(cfg: &Cfg, page: &str, benign_skeleton: &[String], hostile: &str) -> Re
                     out.push(Found { class: "configured-value-missing-from-script".into(), slot: slot.into(), symbol: String::new(), detail: format!("{slot} {c:?} has no string in the fetcher options") });
                 }
             }
-            (None, Some(g)) => out.push(Found { class: "unconfigured-value-in-script".into(), slot: slot.into(), symbol: String::new(), detail: format!("{slot} not configured but the script has {}", show16(g)) }),
+            (None, Some(g)) => out.push(Found { class: "unconfigured-value-in-script".into(), slot: slot.into(), symbol: String::new(), detail: format!("{slot} not configured but the script has {}", show16(&g.value)) }),
             (None, None) => {}
         };
         let url = match get("url") {
@@ -331,7 +355,7 @@ fn judge(cfg: &Cfg, page: &str, benign_skeleton: &[String], hostile: &str) -> Re
         };
         cmp(&mut out, "subscription_endpoint", cfg.sub.as_ref(), sub);
         for (prop, names, conf) in [("headers", ("header_name", "header_value"), &cfg.headers), ("wsConnectionParams", ("ws_param_name", "ws_param_value"), &cfg.ws)] {
-            let got: Vec<(Vec<u16>, Vec<u16>)> = match get(prop) {
+            let got: Vec<(js::Lit, js::Lit)> = match get(prop) {
                 Some(PropVal::Object(e)) => e.clone(),
                 _ => Vec::new(),
             };
@@ -340,7 +364,7 @@ fn judge(cfg: &Cfg, page: &str, benign_skeleton: &[String], hostile: &str) -> Re
                 cmp(&mut out, names.0, Some(&conf[0].0), g.map(|x| &x.0));
                 // a value that was cut off by a fatal issue at the key is not compared
                 if !(fatal_slot.as_deref() == Some(names.0)) {
-                    if !(fatal_slot.as_deref() == Some(names.1) && g.map(|x| x.1.is_empty()).unwrap_or(true)) {
+                    if !(fatal_slot.as_deref() == Some(names.1) && g.map(|x| x.1.items.is_empty() && x.1.end == 0).unwrap_or(true)) {
                         cmp(&mut out, names.1, Some(&conf[0].1), g.map(|x| &x.1));
                     }
                 }
@@ -350,7 +374,7 @@ fn judge(cfg: &Cfg, page: &str, benign_skeleton: &[String], hostile: &str) -> Re
             } else if fatal_slot.is_none() {
                 // several (harmless) entries: HashMap order is free, compare as multisets
                 let mut a: Vec<(Vec<u16>, Vec<u16>)> = conf.iter().map(|(k, v)| (js::utf16(k), js::utf16(v))).collect();
-                let mut b = got.clone();
+                let mut b: Vec<(Vec<u16>, Vec<u16>)> = got.iter().map(|(k, v)| (k.value.clone(), v.value.clone())).collect();
                 a.sort();
                 b.sort();
                 if a != b {
@@ -460,13 +484,12 @@ fn special(s: &str) -> bool {
 pub fn run(cx: &Cx) {
     let thorough = !cx.quick();
     let n1 = if thorough { 4 } else { 3 };
-    // pairs of slots: quick ≤ 1 symbol per slot, thorough ≤ 2 symbols per slot (the full ≤ 4 × ≤ 4 product
-    // is 2·10^10 pages; the cap is reported in `bounds`)
-    let n2 = if thorough { 2 } else { 1 };
+    // pairs of slots: quick (≤1, ≤1) symbols; thorough (≤2, ≤2) ∪ (≤3, ≤1) ∪ (≤1, ≤3) — the full ≤4 × ≤4
+    // product is 2·10^10 pages; the cap is reported in `bounds`
     cx.rule(
         "case = (configuration, rendered page). Single slot: every string of ≤ 3 (quick) / ≤ 4 (thorough) symbols over {a ' \" & < > \\ / LF U+2028 </script> <!-- é} \
          in each of endpoint, subscription_endpoint, title, header name, header value, ws_connection_param name and value (other slots absent; the partner of a name/value pair harmless), \
-         plus 37 exemplar strings per slot (double-escape openers, </title>, CR, U+2029, JS escapes, entity look-alikes). Pairs of slots: all 21 slot pairs × strings of ≤ 1 (quick) / ≤ 2 (thorough) symbols each. \
+         plus 37 exemplar strings per slot (double-escape openers, </title>, CR, U+2029, JS escapes, entity look-alikes). Pairs of slots: all 21 slot pairs × string pairs of symbol lengths (≤1,≤1) (quick) / (≤2,≤2) ∪ (≤3,≤1) ∪ (≤1,≤3) (thorough). \
          Presence product: subscription/title present or not × 0–2 headers × 0–2 ws params with harmless values. \
          Non-trivial = at least one configured string contains a character other than a/é (distinct by construction within each part).",
     );
@@ -509,27 +532,58 @@ pub fn run(cx: &Cx) {
     cx.extra("exemplars_per_slot", json!(ex.len()));
 
     // ---- part 2: pairs of slots
-    let pair_strings = strings_upto(n2);
+    // admissible symbol-length pairs: quick (≤1, ≤1); thorough (≤2, ≤2), (≤3, ≤1), (≤1, ≤3)
+    let lens_ok = |la: usize, lb: usize| if thorough { (la <= 2 && lb <= 2) || (la <= 3 && lb <= 1) || (la <= 1 && lb <= 3) } else { la <= 1 && lb <= 1 };
+    let maxlen = if thorough { 3 } else { 1 };
+    let a_n = alphabet().len();
+    // strings_upto lists strings in order of symbol length: 1, n, n², …
+    let with_len: Vec<(String, usize)> = {
+        let all = strings_upto(maxlen);
+        let mut out = Vec::with_capacity(all.len());
+        let (mut len, mut left) = (0usize, 1usize);
+        for s in all {
+            if left == 0 {
+                len += 1;
+                left = a_n.pow(len as u32);
+            }
+            left -= 1;
+            out.push((s, len));
+        }
+        out
+    };
     let mut pairs = Vec::new();
     for a in 0..7 {
         for b in a + 1..7 {
             pairs.push((a, b));
         }
     }
-    let np = pair_strings.len();
+    let np = with_len.len();
+    let pair_cases = std::sync::atomic::AtomicU64::new(0);
+    let pair_nontrivial = std::sync::atomic::AtomicU64::new(0);
     pairs.par_iter().for_each(|&(a, b)| {
         let hostile = format!("{}+{}", SLOTS[a], SLOTS[b]);
-        (0..np * np).into_par_iter().with_min_len(256).for_each(|k| {
-            let (sa, sb) = (&pair_strings[k / np], &pair_strings[k % np]);
-            let mut c = Cfg::default();
-            c.set(a, sa);
-            c.set(b, sb);
-            ctx.one(&c, &hostile, "pair");
+        (0..np).into_par_iter().for_each(|ia| {
+            let (sa, la) = &with_len[ia];
+            let (mut n, mut nt) = (0u64, 0u64);
+            for (sb, lb) in &with_len {
+                if !lens_ok(*la, *lb) {
+                    continue;
+                }
+                let mut c = Cfg::default();
+                c.set(a, sa);
+                c.set(b, sb);
+                ctx.one(&c, &hostile, "pair");
+                n += 1;
+                if special(sa) || special(sb) {
+                    nt += 1;
+                }
+            }
+            pair_cases.fetch_add(n, std::sync::atomic::Ordering::Relaxed);
+            pair_nontrivial.fetch_add(nt, std::sync::atomic::Ordering::Relaxed);
         });
     });
-    let sp = pair_strings.iter().filter(|s| special(s)).count() as u64;
-    cx.nontrivial_count(pairs.len() as u64 * (np as u64 * np as u64 - (np as u64 - sp) * (np as u64 - sp)));
-    cx.extra("pair_strings_per_slot", json!(np));
+    cx.nontrivial_count(pair_nontrivial.load(std::sync::atomic::Ordering::Relaxed));
+    cx.extra("pair_cases", json!(pair_cases.load(std::sync::atomic::Ordering::Relaxed)));
     cx.extra("slot_pairs", json!(pairs.len()));
 
     // ---- part 3: presence product with harmless values
@@ -555,7 +609,7 @@ pub fn run(cx: &Cx) {
     cx.extra("presence_combinations", json!(presence));
     cx.extra(
         "bounds",
-        json!({"single_slot_max_symbols": n1, "pair_max_symbols_per_slot": n2, "pairs_cap_note": "the design's ≤4 × ≤4 pair product (2·10^10 pages) is cut to this bound"}),
+        json!({"single_slot_max_symbols": n1, "pair_symbol_lengths": if thorough { "(<=2,<=2) | (<=3,<=1) | (<=1,<=3)" } else { "(<=1,<=1)" }, "pairs_cap_note": "the design's ≤4 × ≤4 pair product (2·10^10 pages) is cut to this bound"}),
     );
     cx.exhaustive(true);
     let samples = [(0usize, "a&'"), (2, "<!--</script>"), (4, "\\"), (6, "\n")];
